@@ -51,6 +51,9 @@ for _p in ("C09", "C10", "C11", "C12", "C13", "C16", "C28", "C40"):
     CHECKS[_p] = ("eng_query", "model_checking", _QUERY_ASSUME)
 CHECKS["C08"] = (("eng_core", "eng_query"), "model_checking", _CORE_ASSUME + _QUERY_ASSUME[1:3])
 
+CHECKS["C41"] = ("eng_worker", "model_checking", ["TLC and the community modules are correct",
+                 "the hook events are emitted inside the worker's closures while the Mutex<Memvid> is held, and ordered by a sequence number taken under the tracer's lock",
+                 "seeded sleeps explore interleavings; they do not enumerate them (the exhaustive part is the model, <= 3-4 puts)"])
 CHECKS["C23"] = ("eng_det", "model_checking", _CORE_ASSUME[:2] + ["the two executions run in separate processes of the same build on the same machine"])
 
 # properties decided by two engines: the crash-left inputs come from the disk engine
